@@ -5,6 +5,7 @@ import sys, os, json, random, struct
 import vrepo
 import numpy, networkx as nx
 import epydemic.newmanziff as nzmod
+from fractions import Fraction
 from epydemic import BondPercolation, SitePercolation
 
 
@@ -16,16 +17,73 @@ class Shim:
     """stands in for the module-level name `numpy` inside a module that calls numpy.random.shuffle"""
     def __init__(self, rnd):
         self.rnd = rnd
+        self.called = 0
         outer = self
 
         class R:
             @staticmethod
             def shuffle(l):
+                outer.called += 1
                 outer.rnd.shuffle(l)
         self.random = R
 
     def __getattr__(self, k):
         return getattr(numpy, k)
+
+
+def order_law(Base, g):
+    """exact law of the occupation order when the code draws it itself from a module-level `rng` with integers(): every sequence of
+    outcomes is enumerated with its probability. None when the order comes from somewhere this cannot script."""
+    from fractions import Fraction
+    if not hasattr(nzmod, 'rng'): return None
+
+    class Need(Exception):
+        pass
+
+    class Unsupported(Exception):
+        pass
+    law = {}
+    stack = [[]]
+    runs = 0
+    saved = nzmod.rng
+    try:
+        while stack:
+            path = stack.pop(); runs += 1
+            if runs > 2000: return None
+            pos = [0]; need = [None]
+
+            class Enum:
+                def integers(self, low, high=None, size=None, dtype=None, endpoint=False):
+                    if size is not None: raise Unsupported()
+                    if high is None: low, high = 0, low
+                    hi = int(high) + (1 if endpoint else 0); low = int(low)
+                    if pos[0] < len(path):
+                        v = path[pos[0]][0]; pos[0] += 1; return v
+                    need[0] = (low, hi); raise Need()
+
+                def __getattr__(self, k):
+                    raise Unsupported()
+            got = {}
+
+            class P(Base):
+                def percolate(self, xs):
+                    got['order'] = tuple(tuple(x) if isinstance(x, (tuple, list)) else x for x in xs)
+                    return super().percolate(xs)
+            nzmod.rng = Enum()
+            try:
+                P(g.copy(), samples=[1.0]).set({}).run(fatal=True)
+            except Need:
+                (lo, hi) = need[0]
+                for v in range(lo, hi): stack.append(path + [(v, hi - lo)])
+                continue
+            except Unsupported:
+                return None
+            pr = Fraction(1)
+            for (_, w) in path: pr /= w
+            if 'order' in got: law[got['order']] = law.get(got['order'], Fraction(0)) + pr
+    finally:
+        nzmod.rng = saved
+    return law
 
 
 def components(n, edges):
@@ -167,6 +225,20 @@ def run_nz(spec):
         info['exc'] = f"{type(ex).__name__}: {ex}"
         exp.append(f"EXC {type(ex).__name__}")
         if not viol: viol.append(f"run raised {type(ex).__name__}: {ex}")
+    shim = nzmod.numpy
+    if res is not None and not viol and len(st.get('order', [])) >= 2 and getattr(shim, 'called', 1) == 0:
+        # the occupation order did not come from numpy's shuffle, which is what this harness scripts (and trusts to be uniform): work out the
+        # exact law of the order on a small network from the integers the code draws, or give up
+        import math
+        small = nx.path_graph(4) if kind == 'bond' else nx.path_graph(3)
+        law = order_law(Base, small)
+        if law is None:
+            raise RuntimeError("the occupation order was not drawn with numpy.random.shuffle and its source cannot be scripted")
+        m = small.number_of_edges() if kind == 'bond' else small.order()
+        bad = [(o, pr) for o, pr in law.items() if pr != Fraction(1, math.factorial(m))]
+        if len(law) != math.factorial(m) or bad:
+            viol.append(f"{kind} percolation of a path with {m} elements: {len(law)} of the {math.factorial(m)} occupation orders can occur"
+                        + (f", e.g. {bad[0][0]} with probability {bad[0][1]}" if bad else "") + " (uniform: each 1/" + str(math.factorial(m)) + ")")
     if res is not None and not viol:
         M = len(st.get('order', []))
         if M >= 1:
